@@ -244,7 +244,7 @@ fn traversal_case<const K: usize>(rep: &mut Report, idx: u64, t: &Tree<u32, K>, 
         if got_e != want_e {
             rep.viol(idx, "edge-order", format!("DfsEdge from {s}: got {got_e:?} want {want_e:?} | {descr}"));
         } else {
-            for skip_at in 0..=want_e.len() {
+            for (skip_at, repeat) in (0..=want_e.len()).flat_map(|q| [(q, 1usize), (q, 2usize)]) {
                 let mut it = DfsEdge::new(t, s);
                 let mut seen = vec![];
                 let mut expect = want_e.clone();
@@ -262,7 +262,9 @@ fn traversal_case<const K: usize>(rep: &mut Report, idx: u64, t: &Tree<u32, K>, 
                             seen.push((e.src, e.label, e.dest));
                             pos += 1;
                             if seen.len() == skip_at {
-                                it.skip_subtree();
+                                for _ in 0..repeat {
+                                    it.skip_subtree();
+                                }
                                 let last = e.dest;
                                 let head: Vec<_> = expect[..pos].to_vec();
                                 let tail: Vec<_> = expect[pos..].iter().filter(|x| !is_desc(&m, last, x.2)).cloned().collect();
@@ -276,7 +278,7 @@ fn traversal_case<const K: usize>(rep: &mut Report, idx: u64, t: &Tree<u32, K>, 
                     }
                 }
                 if seen != expect {
-                    rep.viol(idx, "edge-skip", format!("DfsEdge from {s} with skip_subtree after item {skip_at}: got {seen:?} want {expect:?} | {descr}"));
+                    rep.viol(idx, "edge-skip", format!("DfsEdge from {s} with skip_subtree x{repeat} after item {skip_at}: got {seen:?} want {expect:?} | {descr}"));
                 }
             }
         }
@@ -288,7 +290,7 @@ fn traversal_case<const K: usize>(rep: &mut Report, idx: u64, t: &Tree<u32, K>, 
         } else if got_b != want_b {
             rep.viol(idx, "bfs-remaining", format!("Bfs from {s}: remaining-sibling counters got {got_b:?} want {want_b:?} | {descr}"));
         }
-        for skip_at in 0..=want_b.len() {
+        for (skip_at, repeat) in (0..=want_b.len()).flat_map(|q| [(q, 1usize), (q, 2usize)]) {
             let mut it = Bfs::new(t, s);
             let mut seen = vec![];
             let mut expect: Vec<(usize, usize)> = want_b.iter().map(|x| (x.0, x.1)).collect();
@@ -306,7 +308,9 @@ fn traversal_case<const K: usize>(rep: &mut Report, idx: u64, t: &Tree<u32, K>, 
                         seen.push((d.depth, d.index));
                         pos += 1;
                         if seen.len() == skip_at {
-                            it.skip_subtree();
+                            for _ in 0..repeat {
+                                it.skip_subtree();
+                            }
                             let last = d.index;
                             let head: Vec<_> = expect[..pos].to_vec();
                             let tail: Vec<_> = expect[pos..].iter().filter(|x| !is_desc(&m, last, x.1)).cloned().collect();
@@ -320,7 +324,7 @@ fn traversal_case<const K: usize>(rep: &mut Report, idx: u64, t: &Tree<u32, K>, 
                 }
             }
             if seen != expect {
-                rep.viol(idx, "bfs-skip", format!("Bfs from {s} with skip_subtree after item {skip_at}: got {seen:?} want {expect:?} | {descr}"));
+                rep.viol(idx, "bfs-skip", format!("Bfs from {s} with skip_subtree x{repeat} after item {skip_at}: got {seen:?} want {expect:?} | {descr}"));
             }
         }
         // ---- metrics per start node
